@@ -231,8 +231,9 @@ def stepProof (d : DState) (h : Int) (pre _post : List String) (impl : Option Co
         sessCtxOk := ← kvBool pre "sctx", indexAvail := ← kvBool pre "idxavail", indexOk := ← kvBool pre "idx",
         merkle := mk, appFound := ← kvBool pre "app", leafErr := if (kv pre "leafv") = some "na:0" then none else leafv,
         reward := (rw.map (·.2)).foldl (· + ·) 0,
-        burn := d.supply - p.supply,      -- the burn amount is C27's subject: taken from the output, checked for sign and source
-        challengeBurn := 0 }
+        -- the burn amounts are C27's subject: taken from the output, checked for sign and source
+        burn := d.supply - p.supply,
+        challengeBurn := (rw.map (·.2)).foldl (· + ·) 0 - (p.supply - d.supply) }
     pure (⟨key, leaf⟩, e, signer, rw)
   match parsed with
   | none => (d, .bad "proof line")
@@ -265,21 +266,25 @@ def stepProof (d : DState) (h : Int) (pre _post : List String) (impl : Option Co
           (.propfail "proof-created-claim" s!"h={h} key={renderKey m.key}"),
         chk (!(impl.isSome && impl ≠ some Code.replayAttack && (!claimsEq d.claims p.claims || ds ≠ 0)))
           (.propfail "rejected-proof-changed-state" s!"h={h} key={renderKey m.key} code={renderCode impl} ds={ds}"),
-        chk (!(ds < 0 && impl ≠ some Code.replayAttack)) (.propfail "burn-outside-replay-branch" s!"h={h} ds={ds}") ]
+        chk (!(ds < 0 && impl ≠ some Code.replayAttack && !(impl.isNone && m.leaf = .challenge)))
+          (.propfail "burn-outside-burn-branches" s!"h={h} ds={ds}") ]
     let feePaid := !e.dup && e.vb.isNone && e.anteOk
     let b0 := if feePaid then balAdd (balAdd d.bal signer (-fee)) "m_fee_collector" fee else d.bal
     let minted := r.events.any fun ev => match ev with | .minted .. => true | _ => false
     let b1 := if minted then rw.foldl (fun b q => balAdd b q.1 q.2) b0 else b0
     let burned := r.events.any fun ev => match ev with | .burned .. => true | _ => false
-    let b2 := if burned then balAdd b1 "m_staked_tokens_pool" (-(e.burn)) else b1
+    let cburned := r.events.any fun ev => match ev with | .challengeBurn .. => true | _ => false
+    let b2 := if burned then balAdd b1 "m_staked_tokens_pool" (-(e.burn))
+      else if cburned then balAdd b1 "m_staked_tokens_pool" (-(e.challengeBurn)) else b1
     let codeOk := if r.err = some Code.ante then impl.isSome else r.err = impl
     let tie : List Verdict :=
       [ chk codeOk (.diff s!"code model={renderCode r.err} impl={renderCode impl}"),
         chk (claimsEq r.state.claims p.claims) (.diff s!"claims model={renderClaims r.state.claims} impl={renderClaims p.claims}"),
         chk (r.state.supply = p.supply) (.diff s!"supply model={r.state.supply} impl={p.supply}"),
         chk (!(burned && e.burn < 0)) (.diff s!"replay branch increased the supply by {-e.burn}"),
+        chk (!(cburned && e.challengeBurn < 0)) (.diff s!"challenge proof minted {-e.challengeBurn} more than the oracle reward"),
         chk (balEq b2 p.bal) (.diff s!"balances {balDiff b2 p.bal}"),
-        chk (burned || d.stake = p.stake) (.diff "node stakes changed outside the replay branch") ]
+        chk (burned || cburned || d.stake = p.stake) (.diff "node stakes changed outside the burn branches") ]
     ({ d.adopt h p with ledger := if paid then ledgerPut d.ledger l' else d.ledger }, first (spec ++ tie))
 
 def step (d : DState) (pre post : List String) : DState × Verdict :=
